@@ -160,6 +160,14 @@ def c_cache(rows):
 case("C16.CacheTrace: Insert hook removed, lock taken while held", "CacheTrace.tla", "CacheTrace.cfg", "cache_quick.obs", c_cache,
      lambda j: True)
 
+# ---- design level: the by-reference rule WITHOUT field identity (before fix 134a7b4) must fail ArgTransparent in the model
+r = vlib.run_tlc("AbiVer.tla", "AbiVer_nameblind.cfg", "selftest_nameblind", workers=2, timeout=600)
+txt = open(r["out"]).read()
+hit = r["violated"] and "Invariant ArgTransparent is violated" in txt and 'mname = "remref"' in txt
+RESULTS.append(("C10/C11.AbiVer (negative configuration NameBlind = TRUE)",
+                "TLC %s" % ("reports ArgTransparent violated by the remref call (the F23 counterexample is a behaviour of the model)" if hit
+                            else "did NOT find the expected counterexample"), hit))
+
 bad = 0
 for (name, text, ok) in RESULTS:
     print("%s  %s: %s" % ("PASS" if ok else "FAIL", name, text))
